@@ -45,8 +45,6 @@ grab("src_NONE_ADDRESS", "src/raw/mod.rs", r"const NONE_ADDRESS: CompiledAddr = 
 grab("src_TRANS_INDEX_THRESHOLD", "src/raw/node.rs", r"const TRANS_INDEX_THRESHOLD: usize = " + NUM + ";")
 grab("src_registry_rows", "src/raw/build.rs", r"Registry::new\(\s*" + NUM + r"\s*,\s*" + NUM + r"\s*\)", group=1)
 grab("src_registry_cols", "src/raw/build.rs", r"Registry::new\(\s*" + NUM + r"\s*,\s*" + NUM + r"\s*\)", group=2)
-grab("src_FNV_PRIME", "src/raw/registry.rs", r"const FNV_PRIME: u64 = " + NUM + ";")
-grab("src_FNV_BASIS", "src/raw/registry.rs", r"let mut h = " + NUM + ";")
 grab("src_CASTAGNOLI_POLY", "build.rs", r"const CASTAGNOLI_POLY: u32 = " + NUM + ";")
 grab("src_mask_shr", "src/raw/crc32.rs", r"sum\.wrapping_shr\(" + NUM + r"\)")
 grab("src_mask_shl", "src/raw/crc32.rs", r"sum\.wrapping_shl\(" + NUM + r"\)")
@@ -133,6 +131,15 @@ def table(name, path, rx):
 table("src_COMMON_INPUTS", "src/raw/common_inputs.rs", r"pub const COMMON_INPUTS: \[u8; 256\] = \[(.*?)\];")
 table("src_COMMON_INPUTS_INV", "src/raw/common_inputs.rs", r"pub const COMMON_INPUTS_INV: \[u8; 256\] = \[(.*?)\];")
 
+# the node-cache hash function is not a constant but code: translated by tools/rusthash.py
+sys.path.insert(0, os.path.dirname(os.path.abspath(__file__)))
+import rusthash
+hash_lines = []
+try:
+    hash_lines = rusthash.translate(read("src/raw/registry.rs"))
+except (rusthash.Untranslatable, OSError) as ex:
+    missing.append("Registry::hash (src/raw/registry.rs): outside the translatable subset: %s" % (ex,))
+
 if missing:
     sys.stderr.write("srcparams: not found in source: " + "; ".join(missing) + "\n")
     print("srcparams: not found in source: " + "; ".join(missing))
@@ -145,6 +152,9 @@ for name, v in items:
         lines.append("Definition %s : list N := [%s]." % (name, "; ".join(str(x) for x in v)))
     else:
         lines.append("Definition %s : N := %d." % (name, v))
+lines.append("")
+lines.append("(* Registry::hash, translated by tools/rusthash.py; the bucket is src_hash_raw ... mod table_size *)")
+lines += hash_lines
 txt = "\n".join(lines) + "\n"
 os.makedirs(os.path.dirname(out), exist_ok=True)
 if not os.path.exists(out) or open(out).read() != txt:
